@@ -162,7 +162,7 @@ def extract_history(tracefile, h):
     on = False
     with open(tracefile) as f:
         for line in f:
-            if line.startswith('{"ev":"N"'):
+            if '"h":' in line[:24]:
                 if on:
                     break
                 try:
@@ -172,6 +172,77 @@ def extract_history(tracefile, h):
             if on:
                 evs.append(line.rstrip('\n'))
     return evs
+
+
+def history_to_plan(lines):
+    """recorded history (N/D/L or NE/E events) -> caller plan (stream + per-call chunk end, capacity, last)"""
+    evs = [json.loads(l) for l in lines if l.strip() and '"ev":"VIOLATION"' not in l]
+    first = evs[0]
+    if first['ev'] == 'N':
+        stream = []
+        pos = 0
+        calls = []
+        lat = False
+        prelen = 0
+        for e in evs[1:]:
+            if e['ev'] == 'L':
+                lat = True
+            if e['ev'] != 'D':
+                continue
+            src = e['src']
+            need = pos + len(src)
+            if len(stream) < need:
+                stream += [0] * (need - len(stream))
+            stream[pos:need] = src
+            calls.append([need, e['cap'], e['last']])
+            prelen = len(e.get('pre', []))
+            if e['res'] != 'P':
+                pos += e['read']
+        return {'ev': 'PLAN', 'kind': 'dec', 'h': first.get('h', 0), 'enc': first['enc'], 'mode': first['mode'], 'sink': first['sink'],
+                'repl': first['repl'], 'stream': stream, 'calls': calls, 'lat': lat, 'prelen': prelen, 'finish': False}
+    if first['ev'] == 'NE':
+        units = []
+        pos = 0
+        ends = []
+        prelen = 0
+        for e in evs[1:]:
+            if e['ev'] != 'E':
+                continue
+            src = e['src']
+            need = pos + len(src)
+            if len(units) < need:
+                units += [0] * (need - len(units))
+            units[pos:need] = src
+            ends.append([need, e['cap'], e['last']])
+            prelen = len(e.get('pre', []))
+            if e['res'] != 'P':
+                pos += e['read']
+        # units -> items with unit offsets
+        items = []
+        bounds = [0]
+        if first['source'] == 'utf8':
+            text = bytes(units).decode('utf-8', errors='replace')
+            for ch in text:
+                items.append(ord(ch))
+                bounds.append(bounds[-1] + len(ch.encode('utf-8')))
+        else:
+            i = 0
+            while i < len(units):
+                u = units[i]
+                if 0xD800 <= u < 0xDC00 and i + 1 < len(units) and 0xDC00 <= units[i + 1] < 0xE000:
+                    items.append(0x10000 + ((u - 0xD800) << 10) + (units[i + 1] - 0xDC00))
+                    i += 2
+                else:
+                    items.append(u)
+                    i += 1
+                bounds.append(i)
+        calls = []
+        for (e, cap, last) in ends:
+            idx = max([k for k, b in enumerate(bounds) if b <= e] or [0])
+            calls.append([idx, cap, last])
+        return {'ev': 'PLAN', 'kind': 'enc', 'h': first.get('h', 0), 'enc': first['enc'], 'source': first['source'], 'sink': first['sink'],
+                'repl': first['repl'], 'stream': items, 'calls': calls, 'prelen': prelen, 'finish': False}
+    return None
 
 
 # ------------------------------------------------------------------------------------------------
